@@ -14,7 +14,7 @@ RULE = ("Networks with priority_preempt in {resume, restart, resample, reroute} 
         "it; restart - one sample, every episode's intended time == it; resample - one fresh sample per episode drawn at its start; "
         "reroute - no further episode at this node.  Non-trivial: >= 1 pre-emption; distinct by digest.")
 ASSUMPTIONS = ["tolerance 1e-9 on sums of episode durations (resume)"]
-WALL = {"quick": 50, "thorough": 540}
+WALL = {"quick": 150, "thorough": 540}
 
 ALLOWED = ["priorities", "prio_preempt", "prio_reroute", "batching", "cc_waiting", "cc_after", "discipline", "routing_objects",
            "self_loops", "inf", "server_priority", "process_routing"]
@@ -38,4 +38,4 @@ def subchecks(tier):
     prof = S.Profile(ALLOWED, weights=w, required=("priorities", "prio_preempt"), numeric="mixed", max_nodes=3, max_classes=3,
                      plans=("max_time", "max_customers"), horizon=(5.0, 14.0), budget=600, load="heavy")
     return [system_subcheck("system", prof, lambda spec: [PreemptivePriorities(spec)], nontrivial, classes=classes, obs=True, log=True,
-                            n={"quick": 2400, "thorough": 40000}, rule="pre-emption monitor + per-visit bookkeeping audit")]
+                            n={"quick": 7200, "thorough": 40000}, rule="pre-emption monitor + per-visit bookkeeping audit")]
